@@ -1,4 +1,5 @@
 import GoSquare.Proofs.Namespace
+import GoSquare.Proofs.AddInt
 /-! # C18 — namespace order, classification and arithmetic are exact
 
 `<` on `List UInt8` is Lean core's lexicographic order, i.e. the byte-wise lexicographic order of
@@ -120,5 +121,21 @@ theorem fromBytes_spec (b : Bytes) :
 example : Ns.validateForBlob (Ns.newV0 [1, 0]).get! = true := by decide
 example : Ns.validateForBlob txNamespace = false ∧ Ns.validateForBlob primaryReservedPaddingNamespace = false ∧
     Ns.validateForBlob tailPaddingNamespace = false := by decide
+
+
+/-- **C18 (AddInt is exact big-endian addition).** For a namespace of (at least 8, in particular)
+    29 bytes and every Go `int` addend: the result exists exactly when value + addend lies in
+    `[0, 256^len)`, has the same length and the big-endian value `value + addend`; otherwise an
+    error (overflow / underflow). -/
+theorem addInt_spec (n r : Bytes) (val : Int) (hlen : n.length = 29)
+    (hlo : -(2 ^ 63 : Int) ≤ val) (hhi : val < 2 ^ 63) :
+    (Ns.addInt n val = some r ↔ r.length = n.length ∧ (beVal r : Int) = (beVal n : Int) + val) ∧
+    (Ns.addInt n val = none ↔ (beVal n : Int) + val < 0 ∨ 256 ^ n.length ≤ (beVal n : Int) + val) :=
+  ⟨addInt_eq_some_iff n r val (by omega) hlo hhi, addInt_eq_none_iff n val (by omega) hlo hhi⟩
+
+/-- **C18 (adding the negation undoes it).** -/
+theorem addInt_undo (n r : Bytes) (val : Int) (hlen : n.length = 29)
+    (hlo : -(2 ^ 63 : Int) < val) (hhi : val < 2 ^ 63) (h : Ns.addInt n val = some r) :
+    Ns.addInt r (-val) = some n := addInt_neg_undoes n r val (by omega) hlo hhi h
 
 end GoSquare.C18
